@@ -34,6 +34,7 @@ GStep ==
     \/ BlockUndone /\ Log(OpRec("Undo", 0, "", 0, <<>>))
     \/ \E t \in DOMAIN pool : Expire({t}) /\ Log(OpRec("Expire", 0, "", 0, <<t>>))
     \/ SaveLoad /\ Log(OpRec("SaveLoad", 0, "", 0, <<>>))
+    \/ SaveLoadFailed /\ Log(OpRec("SaveCutLoad", 0, "cut", 0, <<>>))
     \/ Observe /\ Log(OpRec("Observe", 0, "", 0, <<>>))
 
 Emit ==
